@@ -209,11 +209,7 @@ func runAbort(res *hx.Result, in input) int {
 	} else {
 		res.Count("abort.not_committed")
 		if p.any() {
-			sig := "abort:store-survives"
-			if ap && (phase == 0 || phase == 2) {
-				sig = "abort:store-survives:actively-persisted-add-then-rollback"
-			}
-			res.Fail(sig, fmt.Sprintf("store %q created in a transaction that ended in %s (err=%v, logger state before end=%d) still exists: %+v", in.Opts.Name, in.End, opErr, stateAtEnd, p), in)
+			res.Fail("abort:store-survives", fmt.Sprintf("store %q created in a transaction that ended in %s (err=%v, logger state before end=%d) still exists: %+v", in.Opts.Name, in.End, opErr, stateAtEnd, p), in)
 		}
 	}
 	if !(keep.Opens && keep.Items == 5 && keep.Count == 5) {
@@ -560,7 +556,8 @@ func run(cfg *hx.RunCfg) (*hx.Result, error) {
 		{Name: "x", Slot: 6, Unique: false, InNode: false, ActivelyP: true},
 		{Name: "x", Slot: 8, Unique: true, InNode: false, ActivelyP: true, GlobalCache: true},
 	}
-	// corpus: the known findings first
+	// corpus: the known finding and the minimised past failures first (the first case is the former
+	// "actively persisted add, then Rollback" defect, fixed; it stays as a regression case)
 	dispatch(res, input{Kind: "abort", Opts: optsList[2], N: 3, End: "rollback"})
 	dispatch(res, input{Kind: "race", Opts: optsList[0], N: 3, Commit: true})
 	dispatch(res, input{Kind: "race", Opts: optsList[0], N: 3, Commit: false})
